@@ -1,7 +1,7 @@
 """C10 - tables and expressions are immutable values.
 
 A genuinely stateful exploration.  The world holds a pool of *live* objects: the source
-table, derived tables, and expression objects E0..E8 built once (an aggregate, a window
+table, derived tables, and expression objects E0..E9 built once (an aggregate, a window
 function, count(), an element-wise expression, a case expression, an ordering marker,
 an aggregate with explicit partition_by).  Events apply a verb with pooled expressions to
 a pooled table (the result joins the pool), change the grouping state, export, build the
@@ -52,6 +52,7 @@ EXPRS = [
     ["max", src("x"), {"partition_by": [src("g")]}],  # E6 explicit partition
     ["shift", src("x"), 1, None],  # E7 order-dependent window function without arrange= (takes the table's arrange order)
     ["row_number"],  # E8 the same without arguments
+    ["case", [[["gt", src("x"), ["lit", 2]], ["lit", 1]]]],  # E9 an open case expression (no otherwise yet)
 ]
 
 
@@ -77,6 +78,9 @@ VERBS = [
     ["arrange", [["desc", P(3)], src("k")]],
     ["alias"],
     ["mutate", [["v", P(7)], ["n", P(8)]]],  # the compiler supplies partition / order for these from the table state
+    ["group_by", [src("k")], True],  # add=True: extends the grouping of the (shared) parent table
+    ["mutate", [["o", ["case_ext", P(9), [[["lt", src("x"), ["lit", 2]], ["lit", -1]]], ["lit", 0]]]]],  # extends the open case expression
+    ["mutate", [["o2", ["case_ext", P(9), [], ["lit", 7]]], ["o3", P(9)]]],  # closes it differently / uses it as it is
 ]
 OBS = ["export", "build_query", "str"]
 
